@@ -51,6 +51,12 @@ CHECKS = {
     text="(a) exhaustive grid on the real stableswap compute_swap and LP-mint formula (hook): whole-token reserve magnitudes incl. 1:1..1:1e9 imbalances x offers {1 unit,1e-3,1,10%,100%,10x} x amp {1..1e6} x decimals {(6,6),(6,8),(8,6),(6,18),(18,6),(4,5)} x fee triples, compared with D and y solved independently by bisection on decimal-normalised reserves: pool keeps the curve reserve up to 2+2*slope base units, proceeds <= ask reserve, proceeds monotone in the offer, fees floor(share*gross), mint <= invariant growth. (b) BFS histories (depth 3/4) of swap/provide/withdraw/collect/fee changes on the real deployed stableswap pair with decimals (6,6) and (6,18): normalised D per LP never falls, mint bound, deposit->withdraw probe.",
     note="Oracles apply while each reserve >= one whole token (the property's precondition). LP-value dust: D known to +-2 base units, else 4+4*max dD/dx_i. Known finding: LP mint over raw amounts with unequal decimals.",
     tech="exhaustive input-grid enumeration + explicit-state model checking of the implementation (BFS)", ref="DESIGN.md §4 C03"),
+ "C14": dict(
+    text="In every state reached by explicit-state BFS (depth 2 quick / 3 thorough) over the real CP pair, stableswap pair, 3pool, router chain (A-B CP, B-C CP, C-D stableswap) and vault: Simulation{offer} is compared with an execution of the same swap on a copy of the state (attributes AND balance/ledger/supply deltas, native Swap and cw20 Send paths, all directions, offers {1,999,1e6,10% reserve,reserve}); SimulateSwapOperations is compared with the receiver's balance delta for all 12 one/two/three-hop routes; Share{amount} with the payout of withdrawing that amount.",
+    note="Router probes assume the router holds none of the route's assets beforehand. Bounded depth/alphabets.", tech="explicit-state model checking of the implementation (BFS) with differential probes on state copies", ref="DESIGN.md §4 C14"),
+ "C15": dict(
+    text="(a) exhaustive grid of assert_max_spread over (offer,return,spread) boundary alphabet^3 x 10 max_spread values x 7 belief prices against the documented rule in exact rationals (1.3e6 points); (b) exhaustive grid of assert_slippage_tolerance (pair CP and stableswap arms, 3pool) over deposits x pools x tolerances; (c) in BFS-reached states of the real CP and stableswap pairs: swaps with every (max_spread, belief) pair must succeed iff within the limit judged on the realised amounts; (d) router: minimum_receive in {D-1,D,D+1} around the simulated amount, receivers with balance {0,5,1e9}, all 1-3 hop routes: success iff delta >= m.",
+    note="A one-unit / 1e-18 indifference band around each threshold; undefined 0/0 ratios are counted, not judged.", tech="exhaustive input-grid enumeration + explicit-state probes on the implementation", ref="DESIGN.md §4 C15"),
 }
 NOT_BUILT = "check not built yet in this round (planned, see DESIGN.md)"
 props = [json.loads(l) for l in open('/verif/properties.jsonl')]
